@@ -23,6 +23,9 @@ def main(seed, rest):
     t0 = time.time()
     for sid in ids:
         meta = json.load(open(os.path.join(VERIF, 'seeded', sid, 'meta.json')))
+        if meta.get('not_chased'):
+            print(f'  {sid}: not chased ({meta["not_chased"]})', flush=True)
+            continue
         expected = meta.get('expected_detectors') or meta.get('detected_by') or [meta['property']]
         res = tools_seeded.detect(sid, expected, record=False)
         hit = [c for c, v in res.items() if v['exit'] == 1]
